@@ -395,9 +395,13 @@ func writeEvidence(spec *CheckSpec, tier string, seed uint64, evs []runEvidence,
 		"wall_s":      wall.Seconds(),
 		"violations":  violations,
 	}
-	os.MkdirAll(filepath.Join(verifDir, "evidence"), 0o755)
+	evDir := filepath.Join(verifDir, "evidence")
+	if d := os.Getenv("VERIF_EVIDENCE_DIR"); d != "" {
+		evDir = d // e.g. to keep thorough-tier records next to the quick-tier evidence
+	}
+	os.MkdirAll(evDir, 0o755)
 	b, _ := json.MarshalIndent(ev, "", " ")
-	os.WriteFile(filepath.Join(verifDir, "evidence", spec.ID+".json"), b, 0o644)
+	os.WriteFile(filepath.Join(evDir, spec.ID+".json"), b, 0o644)
 }
 
 func init() {
@@ -408,6 +412,13 @@ func init() {
 			{Entry: "VerifC18Ints", Covers: []string{"C18.ints.end"}, DiffRuns: 20},
 			{Entry: "VerifC18Strings", Params: map[string]int{"L": 3}, Covers: []string{"C18.strings.end"}, DiffRuns: 20},
 			{Entry: "VerifC18LPM", Params: map[string]int{"LPMBYTES": 3}, Covers: []string{"C18.lpm.end", "C18.lpm.partial-byte"}, DiffRuns: 20},
+		},
+		Thorough: []HarnessRun{
+			{Entry: "VerifC18NonUnique", Params: map[string]int{"L": 2}, Covers: []string{"C18.escape-used", "C18.shorter-secondary-with-primary", "C18.nonunique.end"}, DiffRuns: 40},
+			{Entry: "VerifC18NonUnique", Params: map[string]int{"L": 3, "PEMPTY": 1}, Covers: []string{"C18.escape-used", "C18.nonunique.end"}, DiffRuns: 40},
+			{Entry: "VerifC18Ints", Covers: []string{"C18.ints.end"}, DiffRuns: 20},
+			{Entry: "VerifC18Strings", Params: map[string]int{"L": 4}, Covers: []string{"C18.strings.end"}, DiffRuns: 20},
+			{Entry: "VerifC18LPM", Params: map[string]int{"LPMBYTES": 4}, Covers: []string{"C18.lpm.end", "C18.lpm.partial-byte"}, DiffRuns: 20},
 		},
 		Outside: []string{"outside: secondary/primary keys longer than the L bound; encoded primaries >= 256 bytes (length suffix high byte); netip-typed encoders (net/netip internals are not executed)"},
 	})
